@@ -15,12 +15,13 @@ OT == INSTANCE OwnerTrack WITH MaxMsgs <- 0, DevBufferedRelease <- FALSE,
         live <- 0, out <- 0, exp <- 0
 
 Rec == ndJsonDeserialize(IOEnv.TRACE)
-VARIABLE l
-Init == l \in 1..Len(Rec)
-Next == UNCHANGED l
+\* TLC does not cache Rec: the record of a line is carried in the state so the file is parsed once
+VARIABLES l, rec
+Init == LET R == Rec IN \E i \in 1..Len(R) : l = i /\ rec = R[i]
+Next == UNCHANGED <<l, rec>>
 
 Report(what, detail, devs) ==
-  PrintT(<<"MISMATCH", ToJson([line |-> l, id |-> Rec[l].id, what |-> what, detail |-> detail, explained_by |-> devs])>>)
+  PrintT(<<"MISMATCH", ToJson([line |-> l, id |-> rec.id, what |-> what, detail |-> detail, explained_by |-> devs])>>)
 
 Range(s) == {s[i] : i \in 1..Len(s)}
 
@@ -51,7 +52,7 @@ Check(r) ==
   IN
   /\ LET pe == Predicted(r.evs) IN
        (OT!Sim(r.mode, r.init, pe, {}) = OT!Ideal(r.mode, r.init, pe) \/ Report("spec-selfcheck", "Sim without deviations differs from Ideal", {}))
-  /\ (r.evs = Predicted(r.evs) \/ PrintT(<<"DRIFT", ToJson([line |-> l, id |-> Rec[l].id, what |-> "stream set-up finished at an unexpected point"])>>))
+  /\ (r.evs = Predicted(r.evs) \/ PrintT(<<"DRIFT", ToJson([line |-> l, id |-> rec.id, what |-> "stream set-up finished at an unexpected point"])>>))
   /\ IF got = ideal /\ r.extra = <<>> THEN TRUE
      ELSE IF r.extra # <<>> THEN Report("yield-foreign-message", r.extra, expl)
      ELSE IF spurious # {} THEN
@@ -62,5 +63,5 @@ Check(r) ==
      ELSE IF missing # {} THEN Report("owner-signal-dropped", [ideal |-> ideal, got |-> got, err |-> r.err], expl)
      ELSE Report("yield-order", [ideal |-> ideal, got |-> got], expl)
 
-Inv == Check(Rec[l]) \/ TRUE
+Inv == Check(rec) \/ TRUE
 =============================================================================
